@@ -343,6 +343,11 @@ example :
 /-- `memory_stack::min_block_size(bytes)` = `implementation_offset() + bytes` -/
 def stackMinBlockSize (bytes : BitVec 64) : BitVec 64 := implementationOffset + bytes
 
+/-- the formula above is what the source says: `memory_stack::min_block_size` and `memory_arena::min_block_size` as
+regenerated from the headers by the translator -/
+theorem C18_stack_min_block_matches_code (bytes : BitVec 64) :
+    stackMinBlockSize bytes = stackMinBlockSizeT bytes ∧ stackMinBlockSize bytes = arenaMinBlockSizeT bytes := ⟨rfl, rfl⟩
+
 /-- **stack**: a `memory_stack` created on a block of `min_block_size(bytes)` has exactly `bytes` bytes of
 capacity left (block below `2^62`; fixed or growing block source). -/
 theorem C18_stack_min_block_exact (bytes : BitVec 64) (base num den : Nat) (src : Src)
